@@ -154,6 +154,33 @@ def _collapse_one_ac(t):
     return t, False
 
 
+def _perturb_call_keywords(t, draw):
+    calls = []
+
+    def find(n, path):
+        if n[0] == "call":
+            calls.append(path)
+        for i, ch in enumerate(T.children(n)):
+            find(ch, path + (i,))
+    find(t, ())
+    if not calls:
+        return t
+    path = draw(st.sampled_from(calls))
+
+    def edit(n, p):
+        if not p:
+            kw = dict(n[3]) if len(n) > 3 else {}
+            if kw and draw(st.booleans()):
+                kw.pop(sorted(kw)[0])
+            else:
+                kw["extra"] = ["var", draw(st.sampled_from(TARGET_VARS))]
+            return ["call", n[1], n[2], kw]
+        ch = list(T.children(n))
+        ch[p[0]] = edit(ch[p[0]], p[1:])
+        return T.rebuild(n, ch)
+    return edit(t, path)
+
+
 @st.composite
 def constructed(draw):
     tpl = cap_weight(draw(st.integers(1, 3).flatmap(template)))
@@ -182,6 +209,10 @@ def constructed(draw):
         target = T.substitute(tpl, theta)
     if identity_used:
         target = simplify_identities(target)
+    if draw(st.integers(0, 9)) == 0:
+        # a call of the target gets a keyword argument its counterpart in the template does not have (or loses
+        # one): the two can no longer be equal under any substitution
+        target = _perturb_call_keywords(target, draw)
     before = canon(target)
     if draw(st.booleans()):
         target = permute(target, draw)
